@@ -76,6 +76,7 @@ type Request struct {
 	Subj   relationtuple.Subject
 	Query  *relationtuple.RelationQuery
 	Depth  int
+	Fn     func(ctx context.Context) any // Kind "fn"
 	result any
 }
 
@@ -147,6 +148,8 @@ func (e *Env) Exec(tape *Tape, reqs []*Request, plan ExecPlan) *ExecResult {
 							o.Err = err.Error()
 						}
 						rq.result = o
+					case "fn":
+						rq.result = rq.Fn(ctx)
 					case "list":
 						ts, _, err := e.Deps.mgr.GetRelationTuples(ctx, rq.Query)
 						o := ListOut{N: len(ts)}
